@@ -6,7 +6,9 @@ import (
 	"fmt"
 	"go/types"
 	"math"
+	"mime"
 	"regexp"
+	"sort"
 	"strings"
 
 	"golang.org/x/tools/go/ssa"
@@ -443,6 +445,28 @@ func init() {
 		return Iface{T: types.NewPointer(t), V: &cell}
 	}
 
+	// ---------- mime.ParseMediaType: natively on a concrete argument ----------
+	// mime's package initializer is not run (skipInitPkgs), and the function's SSA body then fails on every input
+	// without any sign of it (net/http's form parsing ignores the error): found with seeded change C13_o.
+	intrinsics["mime.ParseMediaType"] = func(m *Machine, fr *frame, a []Value) Value {
+		mt, params, err := mime.ParseMediaType(m.argStr(a[0], "mime.ParseMediaType argument"))
+		m.mapSeq++
+		mp := &MapV{id: m.mapSeq}
+		keys := make([]string, 0, len(params))
+		for k := range params {
+			keys = append(keys, k)
+		}
+		sort.Strings(keys)
+		for _, k := range keys {
+			m.mapSet(mp, ConcStr(k), ConcStr(params[k]))
+		}
+		var e Value = Iface{}
+		if err != nil {
+			e = m.newErrorString(ConcStr(err.Error()))
+			return Tuple{ConcStr(mt), (*MapV)(nil), e}
+		}
+		return Tuple{ConcStr(mt), mp, e}
+	}
 	// ---------- regexp: compiled natively, matched natively on concrete strings ----------
 	intrinsics["regexp.MustCompile"] = func(m *Machine, fr *frame, a []Value) Value {
 		var cell Value = &Native{Kind: "regexp", Data: regexp.MustCompile(m.argStr(a[0], "regexp pattern"))}
